@@ -735,6 +735,15 @@ func (w *World) checkLog(st *Step, pre map[*half]halfSnap, hist func() string, c
 			}
 		}
 	}
+	/* The program closes its log when Do has returned: a record written
+	after that is a record lost. */
+	if ds := w.doSeq.Load(); 0 != ds {
+		for _, rc := range st.Logs {
+			if rc.Seq > ds {
+				w.viol("C11", "record-after-do-returned/"+rc.Msg, fmt.Sprintf("the record %q %v was written after Broker.Do had returned (the program closes its log file then)%s", rc.Msg, rc.Attrs, hist()))
+			}
+		}
+	}
 	/* Output: one record per chunk handed to the operator, same order. */
 	var plains []string
 	for _, cl := range st.Notices {
